@@ -509,6 +509,8 @@ func (fr *frame) callBySig(con *Contract, si *sigInfo, c *ssa.CallCommon, args [
 	preHyp := fr.cur.pc
 	pre := fr.cur.mem.clone()
 	scPre := &Scope{fr: fr, mem: pre, old: pre, vars: map[string]*sv{}, pkg: si.pkg}
+	callLo := int64(allocBase) + int64(ft.nalloc)
+	scPre.freshLo = callLo
 	for i, n := range si.params {
 		if i < len(args) {
 			a := *args[i]
@@ -600,7 +602,11 @@ func (fr *frame) callBySig(con *Contract, si *sigInfo, c *ssa.CallCommon, args [
 			results = append(results, ft.freshInput(fmt.Sprintf("r$%s$%d", si.name, i), rs.At(i).Type()))
 		}
 	}
+	// references the callee allocates (beyond the results themselves) live in a reserved block above every
+	// reference of the caller; the caller's later allocations come after it
+	ft.nalloc += calleeAllocBlock
 	sc := fr.postScopeSig(si, results, fr.cur.mem, pre, args)
+	sc.freshLo, sc.freshHi = callLo, int64(allocBase)+int64(ft.nalloc)
 	for _, en := range con.Ensures {
 		if en.NoAssume {
 			continue // a `claims` clause states what the property demands; callers may not rely on it
